@@ -45,3 +45,7 @@ def work(ctx, idx):
 
 def evaluate(ctx, case):
     return sb.evaluate(PROP, ctx, case)
+
+
+def features(ctx, case, cls, detail):
+    return sb.features(PROP, ctx, case, cls, detail)
